@@ -14,10 +14,11 @@ def hx2(a):
     return [[float(v).hex() for v in row] for row in np.asarray(a, dtype=float)]
 
 
-def _det(kind, shape, **char):
+def _det(kind, shape, pixel_vert_size=10.0, pixel_horz_size=10.0, **char):
     from harness import pyx
 
-    d = pyx.make_detector(kind=kind, rows=shape[0], cols=shape[1], **char)
+    d = pyx.make_detector(kind=kind, rows=shape[0], cols=shape[1], pixel_vert_size=pixel_vert_size,
+                          pixel_horz_size=pixel_horz_size, **char)
     from pyxel.detectors import ReadoutProperties
 
     d._readout_properties = ReadoutProperties(times=[1.0])   # as the model tests do: gives detector.time_step
@@ -36,11 +37,42 @@ def h_collect(p):
     return {"out": hx(det.pixel.array)}
 
 
+def h_collectp(p):
+    """The generated charge is put into the Charge container as arrays (add_charge_array) and / or particles
+    (add_charge), in the given order, as the charge-generation models do; nothing reads `charge.array` before
+    simple_collection runs."""
+    from pyxel.models.charge_collection import simple_collection
+
+    px = np.array(p["pixel"], dtype=float)
+    det = _det(p.get("det", "ccd"), px.shape, pixel_vert_size=p["sv"], pixel_horz_size=p["sh"])
+    det.pixel.array = px.copy()
+    for op in p["ops"]:
+        if op["op"] == "array":
+            det.charge.add_charge_array(np.array(op["a"], dtype=float).reshape(px.shape))
+        else:
+            ps = op["ps"]
+            n = len(ps)
+            det.charge.add_charge(
+                particle_type="e", particles_per_cluster=np.array([q[2] for q in ps], dtype=float),
+                init_energy=np.zeros(n), init_ver_position=np.array([q[0] for q in ps], dtype=float),
+                init_hor_position=np.array([q[1] for q in ps], dtype=float), init_z_position=np.zeros(n),
+                init_ver_velocity=np.zeros(n), init_hor_velocity=np.zeros(n), init_z_velocity=np.zeros(n))
+    simple_collection(det)
+    return {"out": hx(det.pixel.array)}
+
+
 def h_qe(p):
     from pyxel.models.charge_generation.photoelectrons import apply_qe, simple_conversion
 
     ph = np.array(p["photon"], dtype=float)
-    q, samp = p["q"], p["sampling"]
+    samp = p["sampling"]
+    if p["path"] == "select":
+        # simple_conversion with the efficiency given as model argument, by the characteristics, or both
+        det = _det(p.get("det", "ccd"), ph.shape, quantum_efficiency=p["char"])
+        det.photon.array = ph.copy()
+        simple_conversion(det, quantum_efficiency=p["arg"], seed=p.get("seed", 0), binomial_sampling=samp)
+        return {"out": hx(det.charge.array)}
+    q = p["q"]
     if p["path"] == "func":
         np.random.seed(p.get("seed", 0))
         out = apply_qe(array=ph.copy(), qe=q, binomial_sampling=samp)
@@ -56,6 +88,14 @@ def h_fullwell(p):
     from pyxel.models.charge_collection.full_well import apply_simple_full_well_capacity, simple_full_well
 
     x = np.array(p["x"], dtype=float)
+    if p["path"] == "sources":
+        # both capacity sources: detector characteristics (None = not defined) and model argument (None = absent)
+        det = _det(p.get("det", "ccd"), x.shape, full_well_capacity=p["char"])
+        det.pixel.array = x.copy()
+        simple_full_well(det, fwc=p["arg"])
+        o1 = det.pixel.array.copy()
+        simple_full_well(det, fwc=p["arg"])
+        return {"o1": hx(o1), "o2": hx(det.pixel.array.copy())}
     c = p["c"]
     if p["path"] == "func":
         o1 = apply_simple_full_well_capacity(array=x.copy(), fwc=c).copy()
@@ -206,7 +246,7 @@ def h_cdm(p):
     return res
 
 
-HANDLERS = dict(collect=h_collect, qe=h_qe, fullwell=h_fullwell, kernel=h_kernel, ipc=h_ipc, persist=h_persist,
+HANDLERS = dict(collect=h_collect, collectp=h_collectp, qe=h_qe, fullwell=h_fullwell, kernel=h_kernel, ipc=h_ipc, persist=h_persist,
                 cdm=h_cdm)
 
 
